@@ -243,6 +243,16 @@ func runLoop(t *testing.T, spec Spec, tier string, o *out, known map[string]bool
 		steps     int
 	}
 	pending := map[uint64]kept{}
+	// the external oracle's cost per pending run, measured; the wall budget covers the
+	// final flush too (a worker stops producing runs when what is pending could not be
+	// judged before the deadline)
+	flushedRuns, flushedFor := 0, time.Duration(0)
+	perRun := func() time.Duration {
+		if flushedRuns == 0 {
+			return 4 * time.Second
+		}
+		return flushedFor / time.Duration(flushedRuns)
+	}
 	flush := func() bool {
 		if spec.Batch == nil || len(pending) == 0 {
 			return true
@@ -262,6 +272,8 @@ func runLoop(t *testing.T, spec Spec, tier string, o *out, known map[string]bool
 		t0 := time.Now()
 		vs, err := spec.Batch.Flush()
 		close(stopTick)
+		flushedRuns += len(pending)
+		flushedFor += time.Since(t0)
 		agg.Counts["batch_oracle_ms"] += int(time.Since(t0).Milliseconds())
 		agg.Counts["batch_oracle_calls"]++
 		if err != nil {
@@ -296,6 +308,9 @@ func runLoop(t *testing.T, spec Spec, tier string, o *out, known map[string]bool
 	}
 	for i := from; i < to; i += stride {
 		if !deadline.IsZero() && time.Now().After(deadline) {
+			break
+		}
+		if spec.Batch != nil && !deadline.IsZero() && len(pending) > 0 && time.Now().Add(perRun()*time.Duration(len(pending)+1)).After(deadline) {
 			break
 		}
 		if len(pending) >= bsize {
